@@ -20,7 +20,11 @@
 (***************************************************************************)
 EXTENDS Naturals, Sequences, FiniteSets
 
-CONSTANTS Configs      \* the endpoint configurations discussed: records [width, bigEndian, epNum, devAddr]
+CONSTANTS Configs      \* the endpoint configurations discussed: records [width, bigEndian, epNum, devAddr,
+                       \* signalDomain, syncCycles]; signalDomain = clock domain of the monitored signal ("usb" or
+                       \* another one); syncCycles = how many cycles before the request a value may still be the
+                       \* one reported (0 in the "usb" domain; the synchroniser latency otherwise) - it only
+                       \* determines how far back the window `win` of a poll reaches
 
 VARIABLES conf,        \* elaboration-time parameters of the endpoint (chosen at Init, never changes)
           sig,         \* Env: current value of the monitored signal
@@ -39,7 +43,15 @@ EpNum     == conf.epNum
 DevAddr   == conf.devAddr
 
 NBytes == (Width + 7) \div 8
-ByteOf(v, k) == (v \div (256 ^ k)) % 256            \* k = 0: least significant byte
+NLimbs == (Width + 15) \div 16
+
+\* A value of the signal is a sequence of NLimbs 16-bit limbs, least significant limb first (TLC integers are
+\* 32-bit; signals may be wider).  Byte k (k = 0: least significant) of a value:
+ByteOf(v, k) == (v[(k \div 2) + 1] \div (IF k % 2 = 0 THEN 1 ELSE 256)) % 256
+ZeroValue == [i \in 1..NLimbs |-> 0]
+IsValue(v) == /\ Len(v) = NLimbs
+              /\ \A i \in 1..NLimbs : v[i] \in 0..65535
+              /\ v[NLimbs] < 2 ^ (Width - 16 * (NLimbs - 1))
 
 \* the value as it goes onto the wire
 Wire(v) == [i \in 1..NBytes |-> IF BigEndian THEN ByteOf(v, NBytes - i) ELSE ByteOf(v, i - 1)]
@@ -49,7 +61,7 @@ DataResp(pid, payload) == [kind |-> "data", pid |-> pid, payload |-> payload]
 NoResp == [kind |-> "none"]
 
 -----------------------------------------------------------------------------
-InitState == /\ sig = 0 /\ toggle = 0 /\ pending = <<>>
+InitState == /\ sig = ZeroValue /\ toggle = 0 /\ pending = <<>>
              /\ ev = [e |-> "init"]
              /\ latchedLog = <<>> /\ hostToggle = 0 /\ hostLog = <<>>
 Init == conf \in Configs /\ InitState
